@@ -48,6 +48,11 @@ func (t *Transport) RoundTrip(req *http.Request) (*http.Response, error) {
 	for k, vs := range req.Header {
 		metaData[strings.ToUpper(k)] = strings.Join(vs, ",")
 	}
+	// extra environment variables are sent under their configured names
+	for k, v := range t.EnvVars {
+		delete(metaData, strings.ToUpper(k))
+		metaData[k] = v
+	}
 
 	client, err := Dial("tcp", req.URL.Host)
 	if err != nil {
